@@ -216,10 +216,16 @@ class C13(runner.Check):
           # The policy restores with factory(problem) i.e. seed=None; give such
           # instances a fixed seed different from the original (nothing may
           # depend on it) instead of OS entropy, so that runs replay.
+          if name == 'cmaes':
+            # exactly what the service's policy factory does: the class itself,
+            # seed=None passed through (deterministic: evojax' default seed)
+            from vizier._src.algorithms.designers import cmaes  # pylint: disable=g-import-not-at-top
+            return cmaes.CMAESDesigner(p, seed=seed)
           return twin.make(name, p, seed if seed is not None else 424242)
 
         def new_policy():
-          return dp.PartiallySerializableDesignerPolicy(supporter.study_config, supporter, factory, seed=seed)
+          return dp.PartiallySerializableDesignerPolicy(
+              supporter.study_config, supporter, factory, seed=None if name == 'cmaes' else seed)
 
         policy = new_policy()
         seq = []
